@@ -126,10 +126,11 @@ func (v Value) IsNilKnown() (isNil, known bool) {
 
 // Event is something a path did that a rule may be interested in.
 type Event struct {
-	Kind string  // "call", "mapupdate", "store", "delete", "lookup", "cond" (Fn is "true"/"false", Args[0] the condition)
-	Fn   string  // call: callee
-	Loc  string  // store: the symbolic location
-	Args []Value // call: arguments; mapupdate: map, key, value; delete: map, key; store: value; lookup: map, key, ok
+	Kind  string  // "call", "mapupdate", "store", "delete", "lookup", "cond" (Fn is "true"/"false", Args[0] the condition)
+	Fn    string  // call: callee
+	Loc   string  // store: the symbolic location
+	Args  []Value // call: arguments; mapupdate: map, key, value; delete: map, key; store: value; lookup: map, key, ok
+	Deref []Value // call: for each argument that points to a tracked cell, the value of the cell at the time of the call
 }
 
 func (e Event) String() string {
@@ -924,7 +925,16 @@ func (e *Eval) doCall(fr *frame, x *ssa.Call, st *state, depth int) []result {
 		return []result{{Outcome{Rets: e.unknownResults(x, t)}, st}}
 	}
 	if e.WantCall != nil && e.WantCall(callee) {
-		st.events = append(st.events, Event{Kind: "call", Fn: callee.String(), Args: args})
+		ev := Event{Kind: "call", Fn: callee.String(), Args: args}
+		// what the tracked pointer arguments point to at the time of the call
+		for _, a := range args {
+			if a.K == Ptr && a.Cell >= 0 {
+				ev.Deref = append(ev.Deref, e.load(st, a))
+			} else {
+				ev.Deref = append(ev.Deref, Value{})
+			}
+		}
+		st.events = append(st.events, ev)
 	}
 	if e.Oracle != nil {
 		if res, ok := e.Oracle(callee, args); ok {
